@@ -533,7 +533,7 @@ def run_case(case):
     random.seed(case['seed'])            # ServerBase.assign_tasks uses the global generator
     warnings.simplefilter('ignore')      # "coroutine was never awaited" of tasks that are never run
     sim = R.RealSys(case['nw'], case['progs'])
-    out = dict(idx=case['idx'], lines=['reset %d %s' % (case['nw'], R.fmt(case['progs']))], real=[], events=[],
+    out = dict(idx=case['idx'], lines=['reset %d %s %d' % (case['nw'], R.fmt(case['progs']), 1 if case.get('fx') else 0)], real=[], events=[],
                findings=[], quiescent=False, error=None)
     try:
         orc = Oracle(sim, case)
@@ -609,6 +609,23 @@ def run_case(case):
     finally:
         sim.close()
     return out
+
+
+# ------------------------------------------------------------------------------------------------ variant probe
+def probe_completion_variant():
+    """Which completion loop does the implementation have?  A task that returns with two un-awaited futures either
+    cancels both (fixes/D14.patch: the model's fx = 1) or only the first (D14, /repo as it is: fx = 0).  The Coq
+    theorems hold for both variants; any third behaviour shows up as a correspondence mismatch."""
+    import rtsim_cancel as R
+    sim = R.RealSys(1, [[['s', 1], ['s', 1]], []])
+    try:
+        for ev in (('cl', 0, 'connect'), ('cl', 0, 'submit', 0, 0), ('down', 0), ('step', 0)):
+            sim.do(ev)
+        w = sim.workers[0]
+        ncancel = sum(1 for m, _ in w._conn.q if m == R.M.CANCEL)
+        return ncancel == 2 and not w._mailboxes
+    finally:
+        sim.close()
 
 
 # ------------------------------------------------------------------------------------------------ exhaustive schedules
@@ -799,6 +816,8 @@ def run(ctx: vf.Ctx):
     ctx.trusted = ['Coq 8.16.1 kernel + vm_compute', 'ExtrOcamlBasic extraction, OCaml 4.13.1, coq/extract/cancel_driver.ml',
                    'harness/rtsim_cancel.py (fake connections, recording wrappers, script interpreter)',
                    'harness/props/c12.py oracle (own ancestry record)']
+    fx = probe_completion_variant()
+    ctx.cov['completion_loop_variant'] = 'fixes/D14.patch (fx=1)' if fx else '/repo as released, D14 present (fx=0)'
     cases = []
     cdir = vf.ROOT / 'corpus' / 'C12'
     for f in sorted(cdir.glob('*.json')) if cdir.exists() else []:
@@ -819,6 +838,8 @@ def run(ctx: vf.Ctx):
             cases += ex
         ctx.cov['exhaustive_schedules'] = nex
         ctx.cov['exhaustive_scenarios'] = complete
+    for c in cases:
+        c['fx'] = fx
     outs, model_out = run_all(ctx, cases)
     nmis = compare_and_report(ctx, cases, outs, model_out)
     ctx.cov['model_events'] = sum(len(o['events']) for o in outs)
@@ -842,5 +863,6 @@ def replay(ctx, data):
         return
     case = dict(case)
     case.setdefault('idx', 'replay')
+    case['fx'] = probe_completion_variant()
     outs, model_out = run_all(ctx, [case])
     compare_and_report(ctx, [case], outs, model_out)
